@@ -41,8 +41,6 @@ impl UdpSocket {
 #[verifier::external_body] pub fn srtla_incoming_new() -> (r: SrtlaIncoming)
     ensures r.read_any, r.forward_to_client.len() == 0, r.ack_numbers.len() == 0, r.nak_numbers.len() == 0, r.srtla_ack_numbers.len() == 0, r.reg1_send is None
 { unimplemented!() }
-pub assume_specification<T> [bool::then_some] (b: bool, t: T) -> (r: Option<T>)
-    ensures b ==> r == Some(t), !b ==> r is None;
 #[verifier::external_body] pub fn seq_entry_default() -> (r: SequenceTrackingEntry) ensures r.conn_id == 0, r.timestamp_ms == 0, r.seq == 0 { unimplemented!() }
 '''
 
@@ -95,15 +93,15 @@ def add_seqtrack(u):
             C('C05.seqtrack.is_valid.same_seq_and_within_5s', 'r == self.remembers(seq, current_time_ms)')]),
     ]))
     u.add(impl_block('SequenceTracker', [
-        u.fn(SQ, 'insert', impl='SequenceTracker', sub='seqtrack', props=('C05',), ensures=[
+        u.fn(SQ, 'insert', impl='SequenceTracker', sub='seqtrack', props=(), ensures=[
             C('C05.seqtrack.insert.overwrites_exactly_one_slot', '''final(self).entries@[seq_slot(seq)].conn_id == conn_id && final(self).entries@[seq_slot(seq)].timestamp_ms == timestamp_ms
             && final(self).entries@[seq_slot(seq)].seq == seq
             && (forall|i: int| 0 <= i < 16384 && i != seq_slot(seq) ==> #[trigger] final(self).entries@[i] == old(self).entries@[i])'''),
         ], splices=[('let idx = (seq as usize) & SEQ_TRACKING_MASK;', 'proof { lemma_seq_slot(seq); }', 'after')]),
-        u.fn(SQ, 'get', impl='SequenceTracker', sub='seqtrack', ret='r', props=('C05',), ensures=[
+        u.fn(SQ, 'get', impl='SequenceTracker', sub='seqtrack', ret='r', props=('C09',), ensures=[
             C('C05.seqtrack.get.remembers_iff_same_seq_and_within_5s', 'r == self.spec_get(seq, current_time_ms)'),
         ], splices=[('let idx = (seq as usize) & SEQ_TRACKING_MASK;', 'proof { lemma_seq_slot(seq); }', 'after')]),
-        u.fn(SQ, 'remove_connection', impl='SequenceTracker', sub='seqtrack', props=('C05', 'C19'),
+        u.fn(SQ, 'remove_connection', impl='SequenceTracker', sub='seqtrack', props=(),
              post_rewrite=[('SequenceTrackingEntry::default()', 'seq_entry_default()', 1)],
              ensures=[
                  C('C05+C19.seqtrack.remove_connection.purges_exactly_that_link', '''forall|i: int| 0 <= i < 16384 ==>
@@ -149,7 +147,7 @@ def add_attribute_nak(u):
         raise LostAnchor('attribute_nak: position closure')
     u.add(position_helper('attribute_nak_position', m.group(1)))
     TR = 'seq_tracker.spec_get(nak, current_time_ms)'
-    u.add(u.fn(PH, 'attribute_nak', sub='events', ret='r', props=('C05', 'C09'),
+    u.add(u.fn(PH, 'attribute_nak', sub='events', ret='r', props=('C09',),
                pre_rewrite=[('connections.iter().position(|c| c.conn_id == conn_id)', 'attribute_nak_position(connections, conn_id)', 1)],
                requires=['distinct_conn_ids(old(connections)@)', 'links_wf(old(connections)@)'],
                ensures=[
@@ -207,7 +205,11 @@ def add_events(u):
     SA = '*srtla_ack as i32'
     u.add(u.fn(PH, 'process_connection_events', sub='events', ret='r', erase_async=True, props=('C09',),
                post_rewrite=[('-> Result<()>', '-> Result<(), AnyhowError>', 1), ('srtla_core::utils::now_ms()', 'now_ms()', 1),
-                             ('attribute_nak(connections, seq_tracker, *nak, current_time_ms);', 'let nak_res = attribute_nak(connections, seq_tracker, *nak, current_time_ms);', 1)],
+                             ('attribute_nak(connections, seq_tracker, *nak, current_time_ms);', 'let nak_res = attribute_nak(connections, seq_tracker, *nak, current_time_ms);', 1),
+                             # C09 at EVERY early exit: nothing that had to be forwarded is dropped (the arrival link may have vanished: idx out of range)
+                             (re.compile(r'return Ok\(\(\)\);'), '''{ proof {
+            assert(last_client_addr is Some && idx < connections.len() ==> wire =~= vec_views(incoming.forward_to_client@));  // @ob C09.events.forwarded_datagrams_reach_the_client_once_in_order
+        } return Ok(()); }''', None)],
                requires=['links_wf(old(connections)@)', 'distinct_conn_ids(old(connections)@)'],
                ensures=['final(connections).len() == old(connections).len()', 'links_wf(final(connections)@)'],
                loops={
@@ -222,7 +224,7 @@ def add_events(u):
                    2: dict(inv=_EV_BASE + ['srtla_ack_nx <= incoming.srtla_ack_numbers.len()', 'keys_subset(after_acks, connections@)'],
                            dec='incoming.srtla_ack_numbers.len() - srtla_ack_nx'),
                    3: dict(inv_eb=['retired is None',
-                                   'forall|j: int| 0 <= j < connections.len() ==> log_same(&mid[j], &#[trigger] connections[j])',
+                                   C('C02.events.srtla_ack_retires_on_arrival_link_else_one_other_holder', 'forall|j: int| 0 <= j < connections.len() ==> log_same(&mid[j], &#[trigger] connections[j])'),
                                    'forall|j: int| 0 <= j < i_nx && j != idx ==> !(#[trigger] mid[j]).packet_log@.contains_key(%s)' % SA],
                            inv=_EV_BASE + ['i_nx <= connections.len()', 'mid.len() == connections.len()', C('C02.events.srtla_ack_retires_on_arrival_link_else_one_other_holder', '!found_on_arrival')],
                            ens=['links_wf(connections@)', 'distinct_conn_ids(connections@)', 'connections.len() == old(connections).len()',
@@ -248,7 +250,7 @@ def add_events(u):
                    ('let found_on_arrival =', 'let ghost it0 = connections@;', 'before'),
                    ('connections[idx].handle_srtla_ack_specific(*srtla_ack as i32, classic, current_time_ms);',
                     'let ghost mid = connections@;\n        let ghost mut retired: Option<int> = None;', 'after'),
-                   ('break;', 'proof { retired = Some(i as int); }', 'before'),
+                   ('break;', 'proof { retired = Some(i as int); }', 'before', 'opt'),
                    ('        }\n        let mut c_nx: usize = 0;', '''        }
         proof {
             let sa = *srtla_ack as i32;
@@ -299,10 +301,10 @@ def add_events(u):
                     && forall|j: int| 0 <= j < n0.len() && j != nak_res.unwrap() ==> link_unchanged(&n0[j], &#[trigger] connections[j])));
             assert(keys_subset(n0, connections@));
         }''', 'after'),
+                   ('@BEGIN', '    let ghost mut wire: Seq<Seq<u8>> = Seq::empty();', 'after'),
                    ('if let Some(client) = last_client_addr {', '''proof {
         assert(forall|a: int| 0 <= a < incoming.ack_numbers.len() && incoming.ack_numbers[a] as i32 != i32::MIN ==> all_above(connections@, #[trigger] incoming.ack_numbers[a] as i32));  // @ob C02.events.cumulative_ack_reaches_every_link
-    }
-    let ghost mut wire: Seq<Seq<u8>> = Seq::empty();''', 'before'),
+    }''', 'before'),
                    ('let _ = local_listener.send_to(pkt, client);', 'proof { wire = wire.push(pkt@); }', 'after'),
                    ('    }\n    Ok(())', '''    }
     proof {
